@@ -1,6 +1,7 @@
 import SF.Lemmas.SpecFacts
 import SF.Lemmas.Real
 import SF.Lemmas.Cog
+import SF.Lemmas.Cti
 /-
   C06 — Trend indicators are true correlation measures of the window.
   `Spec.kendall`, `Spec.pearsonIdx`, `Spec.cog` ARE the statement's definitions (all n(n−1)/2 pairs with ties
@@ -21,6 +22,12 @@ over exactly the values currently in the window (all values so far before it is 
 every N ≥ 1, every history, every step -/
 theorem cog_eq [FloatLike α] [ExactScalar α] (N : Nat) (hN : 0 < N) (xs : List α) :
     (cogCore (α := α) N).outAfter xs = .ok (Spec.cog N xs) := Cog.outAfter_eq N hN xs
+
+/-- **On a full window CorrelationTrendIndicator equals the Pearson correlation between the N windowed values and their
+time index 0..N−1 (0 when either variance is 0)**: the enumerate-loop's five running sums are Σx, Σk, Σx², Σxk, Σk² of
+exactly the window; every N ≥ 1, every history with at least N values -/
+theorem cti_eq_pearson [FloatLike α] [ExactScalar α] [Transc α] (N : Nat) (hN : 0 < N) (xs : List α) (hx : N ≤ xs.length) :
+    (ctiCore (α := α) N).outAfter xs = .ok (some (pearsonIdx (lastN N xs))) := Cti.outAfter_eq N hN xs hx
 
 theorem sgn0_pos (d : α) (h : 0 < d) : sgn0 d = 1 := by simp [sgn0, h]
 theorem sgn0_neg' (d : α) (h : d < 0) : sgn0 d = -1 := by simp [sgn0, h, not_lt.mpr (le_of_lt h)]
